@@ -151,3 +151,12 @@ info('C19',
      'boundary couplings; neighbour lists against Euclidean distances; irregular, multi-species, helical lattices.',
      ['quick tier samples 40 displacement vectors per lattice and four orderings on sizes <= 3x2'],
      [])
+info('C15',
+     'P: TruncationError.__add__/copy/from_norm, _combine_constraints (contracts/c_timeevol.py, c_truncation.py). '
+     'B (bounded; exhaustive over the stated grid in the thorough tier): truncate() against an independent brute-force statement of '
+     'the option lattice (all cuts enumerated) for all spectra of length <= 5 over a value grid with exact degeneracies, zeros, '
+     'unnormalised and unsorted input x the full option grid incl. None: kept multiset, T1, norm and discarded weight; svd_theta: '
+     'squared relative reconstruction error equals the reported error with the reported renormalization.',
+     ['truncate() as an unbounded deductive obligation over symbolic spectra: not built in this round (bounded only)',
+      'eigh_rho and decompose_theta_qr_based: exercised only by the repository tests'],
+     [])
